@@ -98,6 +98,8 @@ def parse_unit(path):
                 u.notes.append(s[5:])
             elif w[0] == 'include':
                 u.items.append(('include', w[1]))
+            elif w[0] == 'specfile':
+                u.items.append(('specfile', w[1]))
             elif w[0] == 'spec' and s.endswith('<<<'):
                 buf = []
                 start = i + 2
@@ -269,7 +271,7 @@ class Out:
 
 
 # ------------------------------------------------------------------ global rewrites
-def global_rewrites(src, ed, a, b, log):
+def global_rewrites(src, ed, a, b, log, item_ty='usize'):
     t = src.text
     # R1: boxed iterator type -> AbsIter
     for m in src.find_code(r"Box<dyn Iterator<Item\s*=\s*usize>(\s*\+\s*'\w+)?>", a, b):
@@ -292,7 +294,7 @@ def global_rewrites(src, ed, a, b, log):
         log.append('R1a')
     # R1c: Self::Item of the usize iterators
     for m in src.find_code(r'Option<Self::Item>', a, b):
-        ed.add(m.start(), m.end(), 'Option<usize>', ('rw', 'R1c'))
+        ed.add(m.start(), m.end(), f'Option<{item_ty}>', ('rw', 'R1c'))
         log.append('R1c')
     # R3: format!(..)[.to_string()] / "lit".to_string() / literal argument of Error::syntax
     for m in src.find_code(r'\bformat!\(', a, b):
@@ -407,6 +409,12 @@ def assemble(unit, canary=False):
             for n, ln in enumerate(open(p, encoding='utf-8').read().split('\n')):
                 out.lines.append(ln)
                 out.origin.append(('prelude', item[1], n + 1))
+        elif item[0] == 'specfile':
+            p = os.path.join(VERIF, item[1])
+            out.add_text(f'// ---- shared specification file (definitions + proved lemmas, no assumptions): {item[1]}', ('gen',))
+            for n, ln in enumerate(open(p, encoding='utf-8').read().split('\n')):
+                out.lines.append(ln)
+                out.origin.append(('spec', item[1], n + 1))
         elif item[0] == 'spec':
             out.add_text(f'// ---- unit specs and lemmas (proved, not trusted)', ('gen',))
             for n, ln in enumerate(item[1].split('\n')):
@@ -419,7 +427,8 @@ def assemble(unit, canary=False):
             text = src.text[a:b]
             text = re.sub(r'pub\(crate\)\s*', 'pub ', text)
             # named fields -> pub
-            text = re.sub(r'(?m)^(\s+)(?!pub\b)(\w+\s*:)', r'\1pub \2', text)
+            if text.lstrip().startswith('struct'):
+                text = re.sub(r'(?m)^(\s+)(?!pub\b)(\w+\s*:)', r'\1pub \2', text)
             # tuple struct with one private field
             text = re.sub(r'^(struct\s+\w+(?:<[^>]*>)?)\((?!pub\b)', r'\1(pub ', text)
             text = text.replace("<'static>", '<\'static>')
@@ -474,7 +483,11 @@ def emit_fn(asm, unit, fs, src, canary):
     fhash = sha(orig_text)
     ed = Edited(src, fn_kw, bc + 1)
     log = []
-    global_rewrites(src, ed, fn_kw, bc + 1, log)
+    item_ty = 'usize'
+    if fs.impl != '-':
+        for m in src.find_code(r'\btype\s+Item\s*=\s*([^;]+);', ibo, ibc):
+            item_ty = m.group(1).strip()
+    global_rewrites(src, ed, fn_kw, bc + 1, log, item_ty)
     if fs.rename:
         m = re.compile(r'fn\s+(\w+)').match(src.text, fn_kw)
         ed.add(m.start(1), m.end(1), fs.rename, ('rw', 'R0-name'))
